@@ -2108,6 +2108,14 @@ func (c *Conn) handleChangeCipherSpecRecord(
 		return false
 	}
 
+	if prepared.header.Epoch != 0 {
+		// A ChangeCipherSpec is never encrypted or authenticated, and the only
+		// one of a connection (there is no renegotiation) travels in epoch 0.
+		// One that claims a later epoch is forged: it must not move the read
+		// epoch or mark a sequence number of that epoch as received.
+		return false
+	}
+
 	newRemoteEpoch := prepared.header.Epoch + 1
 	c.log.Tracef("%s: <- ChangeCipherSpec (epoch: %d)", srvCliStr(common.IsClient), newRemoteEpoch)
 	if common.RemoteEpoch()+1 != newRemoteEpoch {
